@@ -50,10 +50,20 @@ Inductive result :=
 (** [OpenOrderNotifications] *)
 Record notif := mkNotif { n_asset : N; n_bal : bal; n_trade : trade }.
 
+(** the instrument's kind as configured: 0 spot, 1 perpetual, 2 future, 3 option; its
+    [contract_size] (1 for spot) and settlement asset (none for spot).  The code under test never
+    looks at it, and neither does the model: the property's amounts are price x quantity resp.
+    quantity irrespective of the instrument kind (theorem C08_instrument_kind_irrelevant). *)
+Record ikind := mkKind { ik_kind : N; ik_size : Qc; ik_settle : option N }.
+
 Record config := mkCfg {
   c_instruments : list (N * (N * N));     (* instrument -> (base asset, quote asset) *)
   c_fee : Qc;                             (* fees_percent *)
-  c_latency : N }.                        (* latency_ms *)
+  c_latency : N;                          (* latency_ms *)
+  c_kinds : list (N * ikind) }.           (* instrument -> kind data; informational only *)
+
+Definition with_kinds (cfg : config) (ks : list (N * ikind)) : config :=
+  mkCfg (c_instruments cfg) (c_fee cfg) (c_latency cfg) ks.
 
 (** [MockExchange] minus channels: [account.balances] (association list, asset -> balance),
     [order_sequence], [time_exchange_latest], [account.trades], [account.orders_open],
